@@ -121,6 +121,7 @@ const POSITIONS: &[(&str, &str)] = &[
     ("struct", "struct @ { int mem0; };\nint fn0(@ v) { return v.mem0; }\n"),
     ("member", "struct St0 { int @; };\nint fn0(St0 v) { return v.@; }\n"),
     ("method", "struct St0 { int mem0; int @() { return mem0; } };\nint fn0(St0 v) { return v.@(); }\n"),
+    ("methodcall", "struct St0 { int mem0; int @() { return mem0; } int @(int a) { return a; } int other0() { return @() + @(2); } };\nint fn0(St0 v) { return v.other0() + v.@(); }\n"),
     ("enum", "enum @ { EnV0 };\nint fn0() { return (int)@::EnV0; }\n"),
     ("enumvalue", "enum En0 { @ };\nint fn0() { return (int)En0::@; }\n"),
     ("namespace", "namespace @ { static int gv0 = 1; struct NsS0 { int nm0; }; int nsf0(int a) { return a; } }\nint fn0() { @::NsS0 s; s.nm0 = @::nsf0(2); return s.nm0 + @::gv0; }\n"),
